@@ -344,6 +344,13 @@ func (x *Exec) eqValue(a, b Value) string {
 		return and(eq(av.Tag, bi.Tag), eq(av.Ref, bi.Ref))
 	case SliceV:
 		return x.isNil(a)
+	case ArrayV:
+		br := b.(ArrayV)
+		var cs []string
+		for k := range av.Elems {
+			cs = append(cs, x.eqValue(av.Elems[k], br.Elems[k]))
+		}
+		return and(cs...)
 	case Record:
 		br := b.(Record)
 		var cs []string
@@ -912,7 +919,8 @@ func (x *Exec) elemLeaves(el types.Type, key string, out *[][2]string) {
 		*out = append(*out, [2]string{key + "#tag", "Int"}, [2]string{key + "#ref", "Int"})
 		return
 	case *types.Array:
-		x.fail("array element unsupported")
+		x.elemLeaves(u.Elem(), key+"[]", out)
+		return
 	}
 	*out = append(*out, [2]string{key, sortOf(el)})
 }
